@@ -578,7 +578,9 @@ func main() {
 		"variable chains of 1-3 selectors with optional blanks around dots ending in a (possibly empty or non-matching) partial member name, package chains, and free-form lines over {a,b,t,T,.,blank,1,_,(,+} with arbitrary cursors (also negative and past the end). "+
 		"Avoided input classes (proposed known findings): chains whose first word is a type name, values of types from other packages (unexported members), two promoted members of equal name at equal depth. "+
 		"A case is non-trivial when it has at least one completion; distinct by SHA-256 of (state declarations, line, cursor)")
-	wd := vh.NewWatchdog(rep, 20*time.Second)
+	// generous: creating an interpreter state (fast.New + imports + declarations) is slow on a loaded machine
+	wd := vh.NewWatchdog(rep, 120*time.Second)
+	wd.Beat("fresh interpreter: names exposed through one-letter prefixes")
 
 	// ---- universe of a fresh interpreter, through one-letter prefixes (what the interpreter exposes)
 	base := map[string]bool{}
@@ -679,7 +681,9 @@ func main() {
 
 	idx := 0
 	for s := 0; s < nStates; s++ {
+		wd.Beat(fmt.Sprintf("creating state %d", s))
 		st := newState(rng.Fork(), s)
+		wd.Beat(fmt.Sprintf("state %d declared: %v", s, st.src))
 		qr := rng.Fork()
 		ir := st.ir
 		cv := &conv{ids: map[string]int{}, memo: map[string]string{}, inuse: map[string]bool{}, pfx: st.coqName}
